@@ -14,6 +14,8 @@ IndexHamiltonian::IndexHamiltonian(const Lattice *L, const IndexClassification &
 
 void IndexHamiltonian::prepare()
 {
+    // prepare() translates the lattice's current term list: start from the empty operator, so that a repeated call does not add every term again
+    monomials.clear();
     // Read terms.
     for (unsigned int N=L->getTermStorage().getMaxTermOrder(); N; --N ) {
         if ( L->getTermStorage().getTerms(N).size())
